@@ -50,17 +50,18 @@ def run(tier):
         if k not in seen:
             seen.add(k)
             hs.append(h)
-    if quick and len(hs) > 3600:
+    cap = 3600 if quick else 24000          # measured: about 40 behaviours per second on an idle 16-core machine, far fewer on a loaded one
+    if len(hs) > cap:
         import random
         rng = random.Random(seed())
         crashy = [h for h in hs if any(st["op"].startswith("crash") or st["op"] == "pushboth" for st in h)]
         plain = [h for h in hs if h not in crashy] if len(hs) < 20000 else [h for h in hs if not any(st["op"].startswith("crash") or st["op"] == "pushboth" for st in h)]
         rng.shuffle(crashy)
         rng.shuffle(plain)
-        hs = crashy[:1800] + plain[:1800]
+        hs = crashy[:cap // 2] + plain[:cap // 2]
     inp = write_input("c08.ndjson", [{"ids": ids, "expired": expired}] + hs)
     st = run_harness(chk, "store replay", "pkg/storage", FILES, "TestVerifC08Replay", env={"VERIF_IN": inp, "VERIF_PAR": 16},
-                     timeout=2400, crash_key="store/process-crash")
+                     timeout=2400 if quick else 7000, crash_key="store/process-crash")
     if st.get("histories") != len(hs):
         raise InfraError("replay incomplete: %s" % st)
     for need in ("op_crash-push", "op_crash-delete", "op_pushboth", "op_sweep", "op_reopen", "op_update"):
